@@ -7,8 +7,8 @@ import DelbModel.Props.C02
 
 Model: `Model/Document.lean` (`docPieces` = what `Document.__serialize` writes, `readDoc` = the reading
 side, `dropKinds` = the parser options, `setRoot` / `Clone.copyRootSiblings` = the root setter).
-The byte level (codecs, newline translation by `io.TextIOWrapper`) is runtime behaviour and is covered
-by the correspondence check, not by these theorems.
+The byte level (codecs, newline translation by `io.TextIOWrapper`) is modelled in `Model/Codec.lean`
+and proved in `Props/C12Codec.lean`; the correspondence check compares that model with Python.
 -/
 namespace Delb.Doc
 open Delb.Ser
